@@ -27,7 +27,9 @@ WQ = [("fixed", "quantized_bits(4,0,1,alpha=1.0)"), ("fixed", "quantized_bits(6,
       ("auto_po2", "quantized_bits(4,0,1,alpha='auto_po2')"), ("auto_po2", "quantized_bits(6,1,1,alpha='auto_po2')")]
 BQ = ["quantized_bits(6,1,1)", "quantized_bits(8,3,0)", "quantized_bits(4,0,1)", "quantized_po2(4)", None]
 AQ = ["quantized_relu(6,2)", "quantized_bits(6,2,1)", "quantized_relu(4,1)", "quantized_bits(4,1,0)", "quantized_relu(3,0)",
-      "quantized_relu_po2(4)", "quantized_relu_po2(3,max_value=1)", "quantized_relu_po2(4,negative_slope=0.25)", "quantized_relu(5,1,negative_slope=0.125)"]
+      "quantized_relu_po2(4)", "quantized_relu_po2(3,max_value=1)", "quantized_relu_po2(4,negative_slope=0.25)", "quantized_relu(5,1,negative_slope=0.125)",
+      # 1-bit relus: (1,1) is the {0,1} gate, (1,0) emits {0, 1/2}
+      "quantized_relu(1,0)", "quantized_relu(1,1)"]
 
 
 def pick(rng, l):
@@ -35,6 +37,15 @@ def pick(rng, l):
 
 
 WL_COUNT = [0]
+ACT_COUNT = [0]
+
+
+def pick_act(rng):
+  """activation quantizers in rotation (random starting point), so that the quick tier meets every one of them"""
+  if ACT_COUNT[0] == 0:
+    ACT_COUNT[0] = 1 + int(rng.integers(0, len(AQ)))
+  ACT_COUNT[0] += 1
+  return AQ[ACT_COUNT[0] % len(AQ)]
 
 
 def gen_model(rng, idx, directed=None):
@@ -65,20 +76,20 @@ def gen_model(rng, idx, directed=None):
   if kind == 0:
     inp = Input((int(rng.integers(2, 10)),), name=f"i{idx}")
     x = wl(qkeras.QDense, f"d{idx}_0", units=int(rng.integers(1, 5)))(inp)
-    x = qkeras.QActivation(pick(rng, AQ), name=f"a{idx}_0")(x)
+    x = qkeras.QActivation(pick_act(rng), name=f"a{idx}_0")(x)
   elif kind == 1:
     inp = Input((6, 6, int(rng.integers(1, 4))), name=f"i{idx}")
     x = wl(qkeras.QConv2D, f"c{idx}_0", filters=int(rng.integers(1, 4)), kernel_size=int(rng.integers(1, 4)),
            padding=pick(rng, ["valid", "same"]))(inp)
-    x = qkeras.QActivation(pick(rng, AQ), name=f"a{idx}_0")(x)
+    x = qkeras.QActivation(pick_act(rng), name=f"a{idx}_0")(x)
     if rng.integers(0, 2):
       x = wl(qkeras.QDepthwiseConv2D, f"dw{idx}_1", kernel_size=int(rng.integers(1, 3)))(x)
-      x = qkeras.QActivation(pick(rng, AQ), name=f"a{idx}_1")(x)
+      x = qkeras.QActivation(pick_act(rng), name=f"a{idx}_1")(x)
     x = L.Flatten(name=f"f{idx}")(x)
   else:
     inp = Input((8, int(rng.integers(1, 4))), name=f"i{idx}")
     x = wl(qkeras.QConv1D, f"c1_{idx}_0", filters=int(rng.integers(1, 4)), kernel_size=int(rng.integers(1, 4)), padding=pick(rng, ["valid", "same"]))(inp)
-    x = qkeras.QActivation(pick(rng, AQ), name=f"a{idx}_0")(x)
+    x = qkeras.QActivation(pick_act(rng), name=f"a{idx}_0")(x)
     x = L.Flatten(name=f"f{idx}")(x)
   x = wl(qkeras.QDense, f"d{idx}_9", units=int(rng.integers(1, 4)))(x)
   return Model(inp, x, name=f"qm{idx}"), meta
